@@ -87,9 +87,11 @@ def run(facts, cg):
                 continue
             if not b.defs().get(l):
                 continue
+            loc, how = def_loc(b, l)
+            if how in VIEWS:
+                continue            # a borrowed view / copy of another Result: the obligation stays with the original
             n_results += 1
             us = uses.get(l, [])
-            loc, how = def_loc(b, l)
             if not us:
                 finding('R-ERR', b, 'dropped:%s' % how.split('::')[-1], 'a Result produced at %s (%s) is discarded without being inspected' % (loc, how))
                 continue
@@ -166,6 +168,8 @@ def run(facts, cg):
     return instances, findings
 
 
+VIEWS = ('core::result::Result::as_ref', 'core::result::Result::as_mut', 'core::result::Result::as_deref',
+         'core::result::Result::as_deref_mut', 'core::result::Result::copied', 'core::result::Result::cloned')
 WRAPPERS = {'core::option::Option': 'Some', 'core::task::poll::Poll': 'Ready'}
 
 
